@@ -1,4 +1,4 @@
-// @unit id=v_prioritize props=C01,C02,C04,C06,C08,C16,C17 tier=quick rlimit=100
+// @unit id=v_prioritize props=C01,C02,C04,C06,C08,C16,C17,C19 tier=quick rlimit=100
 // Verus contracts on the real bodies of the send-capacity machinery, extracted on every run:
 //   src/proto/streams/flow_control.rs  (all of it, incl. the usize comparison impls of Window)
 //   src/proto/streams/stream.rs        Stream::{capacity, assign_capacity, send_data, notify_capacity, notify_send, is_send_ready}
